@@ -15,9 +15,10 @@ import tempfile
 import time
 
 
-def model_answer(n, completed, num_returns):
+def model_allows(n, completed, num_returns, got):
+    """R1+R2: an input-ordered list of distinct complete refs, of length min(num_returns, #complete)"""
     ready = [i for i in range(n) if i in completed]
-    return ready[:num_returns]
+    return (got == sorted(set(got)) and set(got) <= set(ready) and len(got) == min(num_returns, len(ready)))
 
 
 def main():
@@ -63,10 +64,11 @@ def main():
                 time.sleep(0.05)
                 ready, notready = ray.wait(refs, num_returns=nr, timeout=5)
                 got = [refs.index(r) for r in ready]
-                want = model_answer(n, completed, nr)
-                conf = (got == want) and len(got) <= nr and got == sorted(got)
+                conf = model_allows(n, completed, nr, got)
                 ok &= conf
-                results.append({"scenario": scen, "completed": sorted(completed), "num_returns": nr, "real": got, "model": want, "conforms": conf})
+                first = [i for i in range(n) if i in completed][:nr]
+                results.append({"scenario": scen, "completed": sorted(completed), "num_returns": nr, "real": got,
+                                "is_first_in_input_order": got == first, "conforms": conf})
             for g in gates:
                 open(g, "w").close()
             ray.get(refs)
